@@ -284,7 +284,10 @@ def main():
     old = open(OUT).read() if os.path.exists(OUT) else None
     if old != text:
         os.makedirs(os.path.dirname(OUT), exist_ok=True)
-        open(OUT, "w").write(text)
+        tmp = OUT + f".tmp{os.getpid()}"
+        with open(tmp, "w") as f:       # atomic replacement: checks of several properties may run at the same time
+            f.write(text)
+        os.replace(tmp, OUT)
         print("translate: SourceFacts.lean regenerated")
     else:
         print("translate: SourceFacts.lean unchanged")
